@@ -17,6 +17,7 @@ import (
 	"io"
 	"math/rand"
 	"net"
+	"os"
 	"strconv"
 	"strings"
 	"time"
@@ -210,12 +211,22 @@ func run(d desc) hlib.Case {
 		maxb = fasthttp.DefaultMaxRequestBodySize
 	}
 	var runs []string
-	for _, c := range d.Cfgs {
+	summary := ""
+	for ci, c := range d.Cfgs {
 		seen := map[string]bool{}
 		var os []string
 		for _, reduce := range []bool{false, true} {
 			for mode := 0; mode < 3; mode++ {
 				ds, rs, bad := serveOnce(d, c, reduce, mode)
+				if ci == 0 && !reduce && mode == 0 {
+					summary = fmt.Sprintf("d%d", len(ds))
+					for _, r := range rs {
+						summary += fmt.Sprintf(",%d", r.status)
+						if r.close {
+							summary += "c"
+						}
+					}
+				}
 				o := coqObs(ds, rs)
 				if bad != "" {
 					// an implementation panic / garbled output never equals the model
@@ -236,7 +247,7 @@ func run(d desc) hlib.Case {
 	return hlib.Case{
 		Coq:  hlib.App("C01Case", hlib.Hex(d.Stream), hlib.List(runs)),
 		Key:  d.Key,
-		Sig:  d.Sig,
+		Sig:  d.Sig + "=>" + summary,
 		Kind: d.Kind,
 		Size: len(d.Stream),
 	}
@@ -254,7 +265,7 @@ var oddVersions = []string{"HTTP/1.2", "HTTP/2.0", "HTTP/0.9", "HTTP/1.10", "htt
 var targetSfx = []string{"", "", "", "?x=1", "/p/q", "?a=b&c=d", "#f", "/%41", "/a%2", "/\xc3\xa9", "/\"q\"", "/..//x"}
 var otherFields = []string{
 	"X-A: b", "Accept: */*", "User-Agent: u/1", "Cookie: k=v", "X-Long: " + strings.Repeat("z", 50),
-	"Content-Type: text/plain", "Connection: keep-alive", "Connection: close", "Connection: Keep-Alive, x",
+	"Content-Type: text/plain", "Connection: keep-alive", "Connection: Keep-Alive, x", "X-B: c", "Accept-Encoding: gzip", "X-C: d,e",
 	"Content-Encoding: gzip", "content-encoding: gzip", "Trailer: X-T", "X-Empty:", "Accept:\t a ",
 }
 
@@ -363,15 +374,17 @@ func encChunked(r *rand.Rand, data []byte, o chunkOpt) []byte {
 	return b.Bytes()
 }
 
-var chunkExts = [][]string{nil, nil, nil, {";a=b"}, {";x", ""}, {" ;a"}, {";a=\"q;r\""}, {" "}, {"\t"}, {"; a = b"}, {";\xff"}, {"x"}, {";a\rb"}}
-var lastLines = []string{"0", "0", "0", "0", "000", "0;e=1", "0 ", "0x", "00000000000000000000"}
+// the first 9 / 6 / 7 entries are what a well-behaved (if unusual) client may send
+var chunkExts = [][]string{nil, nil, nil, {";a=b"}, {";x", ""}, {";a=\"q;r\""}, {" "}, {"\t"}, {"; a = b"}, {" ;a"}, {";\xff"}, {"x"}, {";a\rb"}, {";a\nb"}}
+var lastLines = []string{"0", "0", "0", "0", "000", "0;e=1", "0 ", "0x", "00000000000000000000", "00000000000000000"}
 var trailers = []string{
-	crlf, crlf, crlf, crlf, "X-T: v" + crlf + crlf, "X-T: v" + crlf + "Y-T: w" + crlf + crlf, "X-T: v\n\n", "\n",
+	crlf, crlf, crlf, crlf, "X-T: v" + crlf + crlf, "X-T: v" + crlf + "Y-T: w" + crlf + crlf, "X-T: a" + crlf + " b" + crlf + crlf,
+	"X-T: v\n\n", "\n", "X-T: v\n\r\n",
 	"Content-Length: 3" + crlf + crlf, "Host: h" + crlf + crlf, "X-T v" + crlf + crlf, "X-T : v" + crlf + crlf,
-	" X-T: v" + crlf + crlf, "X-T: a" + crlf + " b" + crlf + crlf, "X-T: \x01" + crlf + crlf, "", "\r",
+	" X-T: v" + crlf + crlf, "X-T: \x01" + crlf + crlf, "", "\r", "Transfer-Encoding: chunked" + crlf + crlf,
 }
 
-func multipartBody(r *rand.Rand, boundary string) []byte {
+func multipartBody(r *rand.Rand, boundary string, odd bool) []byte {
 	var b bytes.Buffer
 	switch r.Intn(4) {
 	case 1:
@@ -381,7 +394,11 @@ func multipartBody(r *rand.Rand, boundary string) []byte {
 	for i := 0; i < nparts; i++ {
 		fmt.Fprintf(&b, "--%s\r\nContent-Disposition: form-data; name=\"f%d\"\r\n\r\nvalue%d\r\n", boundary, i, i)
 	}
-	switch r.Intn(6) {
+	k := 2 + r.Intn(4)
+	if odd {
+		k = r.Intn(4)
+	}
+	switch k {
 	case 0: // no closing boundary
 	case 1:
 		b.WriteString("--" + boundary + "--")
@@ -407,35 +424,44 @@ type gen struct {
 
 func (g *gen) tag(t string) { g.tags = append(g.tags, t) }
 
-func (g *gen) terminators() (lt func() string) {
-	switch g.r.Intn(12) {
-	case 0:
+func (g *gen) terminators(odd bool) (lt func(last bool) string) {
+	k := g.r.Intn(14)
+	switch {
+	case k == 0 && odd:
 		g.tag("lf")
-		return func() string { return "\n" }
-	case 1:
+		return func(bool) string { return "\n" }
+	case k == 1 && odd:
 		g.tag("mixlt")
-		return func() string {
+		return func(bool) string {
 			if g.r.Intn(2) == 0 {
 				return "\n"
 			}
 			return crlf
 		}
+	case k == 2:
+		g.tag("mixlt-crlf-blank") // bare LF line ends, the blank line is CRLF
+		return func(last bool) string {
+			if !last && g.r.Intn(2) == 0 {
+				return "\n"
+			}
+			return crlf
+		}
 	}
-	return func() string { return crlf }
+	return func(bool) string { return crlf }
 }
 
 // one request; id makes the target unique
-func (g *gen) request(id int) []byte {
+func (g *gen) request(id int, odd bool) []byte {
 	r := g.r
 	var b bytes.Buffer
-	lt := g.terminators()
+	lt := g.terminators(odd)
 	if r.Intn(15) == 0 {
 		g.tag("blank")
 		b.WriteString(hlib.Pick(r, []string{crlf, "\n", crlf + crlf, "\r\n\n"}))
 	}
 	method := hlib.Pick(r, methods)
 	version := hlib.Pick(r, versions)
-	if r.Intn(25) == 0 {
+	if odd && r.Intn(8) == 0 {
 		version = hlib.Pick(r, oddVersions)
 		g.tag("ver")
 	}
@@ -446,22 +472,40 @@ func (g *gen) request(id int) []byte {
 	case 1:
 		target = fmt.Sprintf("http://h%d/abs", id)
 	case 2:
-		target = fmt.Sprintf("/r%d a", id)
-		g.tag("sp-in-target")
+		if odd {
+			target = fmt.Sprintf("/r%d a", id)
+			g.tag("sp-in-target")
+		}
 	}
 	sep1, sep2 := " ", " "
-	if r.Intn(40) == 0 {
+	if odd && r.Intn(12) == 0 {
 		sep1 = hlib.Pick(r, []string{"  ", "\t"})
 		g.tag("rl-ws")
 	}
-	b.WriteString(method + sep1 + target + sep2 + version + lt())
-
 	var fields []string
+	if version == "HTTP/1.0" && r.Intn(6) != 0 {
+		fields = append(fields, "Connection: keep-alive")
+	}
+	if r.Intn(40) == 0 {
+		fields = append(fields, hlib.Pick(r, []string{"Connection: close", "Connection: Close", "Connection: x, close"}))
+		g.tag("close")
+	}
+	shape := r.Intn(73)
+	if odd {
+		shape = 46 + r.Intn(54)
+	}
+	if !odd && shape >= 46 && shape < 66 {
+		version = "HTTP/1.1" // a well-behaved client sends chunked bodies only with HTTP/1.1
+	}
+	b.WriteString(method + sep1 + target + sep2 + version + lt(false))
+
 	host := "Host: h"
 	switch r.Intn(20) {
 	case 0:
-		host = ""
-		g.tag("nohost")
+		if odd {
+			host = ""
+			g.tag("nohost")
+		}
 	case 1:
 		host = "host:h"
 	}
@@ -473,7 +517,6 @@ func (g *gen) request(id int) []byte {
 	}
 
 	var body []byte
-	shape := r.Intn(100)
 	switch {
 	case shape < 28: // no body
 		g.tag("nobody")
@@ -483,11 +526,14 @@ func (g *gen) request(id int) []byte {
 		g.tag("fixed")
 	case shape < 66: // chunked, clean or decorated or broken
 		data := hlib.Bytes(r, bodyAlphabet, 30)
-		o := chunkOpt{ext: hlib.Pick(r, chunkExts), last: hlib.Pick(r, lastLines), trailer: hlib.Pick(r, trailers), breakAt: -1}
+		o := chunkOpt{ext: hlib.Pick(r, chunkExts[:9]), last: hlib.Pick(r, lastLines[:6]), trailer: hlib.Pick(r, trailers[:7]), breakAt: -1}
+		if odd {
+			o = chunkOpt{ext: hlib.Pick(r, chunkExts), last: hlib.Pick(r, lastLines), trailer: hlib.Pick(r, trailers), breakAt: -1}
+		}
 		o.upper = r.Intn(4) == 0
 		o.zeros = r.Intn(6) == 0
 		t := "chunked"
-		if r.Intn(5) == 0 {
+		if odd && r.Intn(2) == 0 {
 			o.breakAt = r.Intn(3)
 			o.breakHow = r.Intn(10)
 			t = "chunked-broken" + strconv.Itoa(o.breakHow)
@@ -497,7 +543,7 @@ func (g *gen) request(id int) []byte {
 		g.tag(t)
 	case shape < 73: // multipart
 		boundary := hlib.Pick(r, []string{"XbOuNd", "b-1", "q q"})
-		body = multipartBody(r, boundary)
+		body = multipartBody(r, boundary, odd)
 		ct := "Content-Type: multipart/form-data; boundary=" + boundary
 		switch r.Intn(5) {
 		case 0:
@@ -506,7 +552,7 @@ func (g *gen) request(id int) []byte {
 			ct = "Content-Type: multipart/form-data;boundary=" + boundary + "; x=y"
 		}
 		n := len(body)
-		if r.Intn(6) == 0 {
+		if odd && r.Intn(3) == 0 {
 			n -= 1 + r.Intn(5)
 		}
 		fields = append(fields, ct, "Content-Length: "+strconv.Itoa(n))
@@ -560,9 +606,9 @@ func (g *gen) request(id int) []byte {
 		fields[i], fields[j] = fields[j], fields[i]
 	})
 	for _, f := range fields {
-		b.WriteString(f + lt())
+		b.WriteString(f + lt(false))
 	}
-	b.WriteString(lt())
+	b.WriteString(lt(true))
 	b.Write(body)
 	return b.Bytes()
 }
@@ -592,8 +638,13 @@ func genCase(r *rand.Rand, i int) desc {
 	g := &gen{r: r}
 	var s bytes.Buffer
 	n := 1 + r.Intn(6)
+	bad := r.Intn(n + 2) // the request that is drawn from the anomalous part of the grammar (>= n: none)
+	bad2 := -1
+	if r.Intn(8) == 0 {
+		bad2 = r.Intn(n)
+	}
 	for k := 0; k < n; k++ {
-		s.Write(g.request(k))
+		s.Write(g.request(k, k == bad || k == bad2))
 	}
 	if t := hlib.Pick(r, tails); t != "" {
 		s.WriteString(t)
@@ -697,6 +748,22 @@ func corpus() []desc {
 }
 
 func main() {
+	// debugging aid: C01_PROBE='Go-quoted stream' prints what the real server does with it (default configuration)
+	if q := os.Getenv("C01_PROBE"); q != "" {
+		st, err := strconv.Unquote(`"` + q + `"`)
+		if err != nil {
+			panic(err)
+		}
+		for _, c := range []cfgD{{}, {NoPrep: true}} {
+			ds, rs, bad := serveOnce(desc{Stream: []byte(st), Seed: 1}, c, false, 0)
+			fmt.Printf("cfg %+v bad=%q\n", c, bad)
+			for _, o := range ds {
+				fmt.Printf("  dispatch %q %q body=%q pre=%v\n", o.method, o.uri, o.body, o.pre)
+			}
+			fmt.Printf("  responses %+v\n", rs)
+		}
+		return
+	}
 	hlib.Main(hlib.Prop[desc]{
 		ID:       "C01",
 		Imports:  "From FH Require Import Model.Base Model.Framing Check.C01Check.",
